@@ -67,3 +67,11 @@ chk("C13", "translation validation by differential execution: generated function
     "each once, ordered consistently with every true data-flow edge. Each case validates one generated program.",
     TRUST + " K1-class managers, math.floor/ceil/trunc and definitions with captured non-finite literals are excluded and counted.",
     "DESIGN.md 4/C13")
+
+chk("C17", "stateful model-based testing: generated histories with freeze/unfreeze phases, model-side prediction of which calls change the graph, snapshot equality for rejected calls",
+    "Generated histories frozen at a drawn point and subjected to every mutating and non-mutating API call (assign value / expression, "
+    "in-place, unregister, container overwrite, register / unregister tasks, load in three forms, copy_expr_from, refresh, verify, cleanup, "
+    "clone): a call the model says would change the expression graph must raise ValueError and leave dump(), index supports, all query "
+    "answers and contents identical; other calls must succeed, leave the graph unchanged and propagate values (pull-model oracle). After "
+    "unfreeze the history continues against the model that skipped exactly the rejected calls, and the final queries equal a fresh manager's.",
+    TRUST, "DESIGN.md 4/C17")
